@@ -338,6 +338,53 @@ func (w *c16World) step(s c16Step) *kvh.Fail {
 			}
 		}
 		w.labels["holder-finished-a-merge-(pending-adoption)"]++
+	case "twoclose":
+		// the in-process holder is closed from two goroutines at overlapping times (a signal handler next to the deferred
+		// Close of main) while a batch of a third one keeps the first Close waiting. A Close that RETURNS nil says the
+		// directory is released: from the first such return on an independent flock must succeed
+		if w.holder < 0 || w.holder >= 2 || w.mmap {
+			return nil
+		}
+		db := w.handles[w.holder]
+		b := db.NewBatch(kv.DefaultBatchOptions)
+		_ = b.Put([]byte("tc"), kvh.GenValue(9, 20))
+		done := make(chan error, 2)
+		go func() { done <- c16Reclose(db) }()
+		time.Sleep(2 * time.Millisecond)
+		go func() { done <- c16Reclose(db) }()
+		var early *kvh.Fail
+		select {
+		case err := <-done:
+			// a Close returned although the batch still holds the database
+			done <- err
+			if err == nil {
+				fl := flock.New(filepath.Join(w.dir, ".lock"))
+				if ok, ferr := fl.TryLock(); ferr == nil && !ok {
+					early = &kvh.Fail{Sig: "close-returned-before-the-lock-was-released", Msg: "of two overlapping Close calls one returned nil while the other had not done its work yet (it waits behind an open batch): the directory is still locked, a following Open is refused"}
+				} else if ferr == nil {
+					_ = fl.Unlock()
+				}
+				_ = fl.Close()
+			}
+		case <-time.After(30 * time.Millisecond):
+		}
+		_ = b.Commit()
+		for i := 0; i < 2; i++ {
+			select {
+			case <-done:
+			case <-time.After(60 * time.Second):
+				return &kvh.Fail{Sig: "harness-timeout", Msg: "overlapping Close calls did not return"}
+			}
+		}
+		w.labels["two-overlapping-Close-calls"]++
+		w.stale[w.holder] = db
+		w.handles[w.holder] = nil
+		w.holder = -1
+		w.released = true
+		if early != nil {
+			return early
+		}
+		return w.lockFree()
 	case "mergeclose":
 		// the in-process holder's shutdown path calls Close while its own Merge is under way (from the merge.rotated
 		// point: Merge holds no lock there). Whatever Close answers decides who holds the directory: nil - released;
@@ -756,8 +803,10 @@ func TestC16(t *testing.T) {
 				s.C = "exit"
 			case x < 74:
 				s.C = "merge"
-			case x < 76:
+			case x < 75:
 				s.C = "mergeclose"
+			case x < 76:
+				s.C = "twoclose"
 			case x < 80:
 				s.C = "reclose"
 			case x < 84:
